@@ -5,6 +5,7 @@
 //! types we need.
 
 use std::{cmp, error, fmt, hash, io, slice};
+use std::io::Read;
 use std::collections::HashMap;
 use bytes::Bytes;
 use chrono::{TimeZone, Utc};
@@ -22,6 +23,31 @@ pub trait Compose<W> {
 pub trait Parse<R>
 where Self: Sized {
     fn parse(source: &mut R) -> Result<Self, ParseError>;
+}
+
+
+//------------ Helpers -------------------------------------------------------
+
+/// Reads exactly `len` bytes into a new vec.
+///
+/// The length typically comes from the data itself and cannot be trusted:
+/// rather than allocating `len` bytes up front, the vec grows as data
+/// actually arrives. If the source ends early, an “unexpected EOF” error is
+/// returned just like `read_exact` would.
+fn read_vec<R: io::Read>(
+    source: &mut R, len: usize
+) -> Result<Vec<u8>, ParseError> {
+    let limit = u64::try_from(len).map_err(|_| {
+        ParseError::format("data block too large for this system")
+    })?;
+    let mut bits = Vec::new();
+    source.by_ref().take(limit).read_to_end(&mut bits)?;
+    if bits.len() != len {
+        return Err(io::Error::new(
+            io::ErrorKind::UnexpectedEof, "failed to fill whole buffer"
+        ).into())
+    }
+    Ok(bits)
 }
 
 
@@ -146,8 +172,7 @@ impl<R: io::Read> Parse<R> for uri::Rsync {
         let len = usize::try_from(u32::parse(source)?).map_err(|_| {
             ParseError::format("URI too large for this system")
         })?;
-        let mut bits = vec![0u8; len];
-        source.read_exact(&mut bits)?;
+        let bits = read_vec(source, len)?;
         Self::from_bytes(bits.into()).map_err(|err| {
             ParseError::format(format!("bad URI: {err}"))
         })
@@ -174,8 +199,7 @@ impl<R: io::Read> Parse<R> for uri::Https {
         let len = usize::try_from(u32::parse(source)?).map_err(|_| {
             ParseError::format("URI too large for this system")
         })?;
-        let mut bits = vec![0u8; len];
-        source.read_exact(&mut bits)?;
+        let bits = read_vec(source, len)?;
         Self::from_bytes(bits.into()).map_err(|err| {
             ParseError::format(format!("bad URI: {err}"))
         })
@@ -211,8 +235,7 @@ impl<R: io::Read> Parse<R> for Option<uri::Https> {
         let len = usize::try_from(len).map_err(|_| {
             ParseError::format("URI too large for this system")
         })?;
-        let mut bits = vec![0u8; len];
-        source.read_exact(&mut bits)?;
+        let bits = read_vec(source, len)?;
         uri::Https::from_bytes(bits.into()).map_err(|err| {
             ParseError::format(format!("bad URI: {err}"))
         }).map(Some)
@@ -239,8 +262,7 @@ impl<R: io::Read> Parse<R> for Bytes {
         let len = usize::try_from(u64::parse(source)?).map_err(|_| {
             ParseError::format("data block too large for this system")
         })?;
-        let mut bits = vec![0u8; len];
-        source.read_exact(&mut bits)?;
+        let bits = read_vec(source, len)?;
         Ok(bits.into())
     }
 }
@@ -271,8 +293,7 @@ impl<R: io::Read> Parse<R> for Option<Bytes> {
         let len = usize::try_from(len).map_err(|_| {
             ParseError::format("data block large for this system")
         })?;
-        let mut bits = vec![0u8; len];
-        source.read_exact(&mut bits)?;
+        let bits = read_vec(source, len)?;
         Ok(Some(bits.into()))
     }
 }
